@@ -177,3 +177,56 @@ def expected_option(key, priority, pwd, user):
 
 def merged(result, key):
     return result[key]
+
+
+# ---------------------------------------------------------------- C03: facet permutations (A-PERM: rotate first, then reflect)
+def tri_rot(p):
+    return [p[1], 1 - p[0] - p[1]]
+
+
+def quad_rot(p):
+    return [p[1], 1 - p[0]]
+
+
+def refl2(p):
+    return [p[1], p[0]]
+
+
+def refl1(p):
+    return [1 - p[0]]
+
+
+def iterate(f, n, p):
+    for _ in range(n):
+        p = f(p)
+    return p
+
+
+def same_point(p, q):
+    return len(p) == len(q) and all([a == b for a, b in zip(p, q)])
+
+
+# ---------------------------------------------------------------- C11: per-integral metadata
+def new_md(form_data, i):
+    return form_data.integral_data[0].integrals[i].metadata()
+
+
+# ---------------------------------------------------------------- C10: tensor-product quadrature
+def multi_indices(sizes):
+    out = [[]]
+    for n in sizes:
+        out = [q + [i] for q in out for i in range(n)]
+    return out
+
+
+def tensor_rule_ok(points, weights, factors):
+    sizes = [len(f[1]) for f in factors]
+    qs = multi_indices(sizes)
+    if len(points) != len(qs) or len(weights) != len(qs):
+        return False
+    ok = []
+    for q in qs:
+        k = flat(q, sizes)
+        ok.append(weights[k] == prod([factors[d][1][q[d]] for d in range(len(sizes))]))
+        ok.append(all([points[k][d] == factors[d][0][q[d]][0] for d in range(len(sizes))]))
+    return all(ok)
